@@ -45,7 +45,9 @@ class _Baton(object):
     __slots__ = ("_l",)
 
     def __init__(self):
-        self._l = threading.Lock()
+        import _thread
+
+        self._l = _thread.allocate_lock()
         self._l.acquire()
 
     def release(self):
@@ -370,6 +372,27 @@ class HybridLock(CoopLock):
         self.owner = None
         if self._real.locked():
             self._real.release()
+
+
+class cooperative_primitives(object):
+    """``with cooperative_primitives():`` - while an object of the code under test is *constructed*,
+    ``threading.Lock`` and ``queue.SimpleQueue`` are the cooperative stand-ins, however the code spells
+    them (``Lock()`` imported at module level, ``threading.Lock()``, ``queue.SimpleQueue()``).  Only to be
+    used around constructor calls: no thread or event may be created inside the block."""
+
+    def __enter__(self):
+        import queue
+
+        self._saved = (threading.Lock, queue.SimpleQueue)
+        threading.Lock = HybridLock
+        queue.SimpleQueue = CoopQueue
+        return self
+
+    def __exit__(self, *exc):
+        import queue
+
+        threading.Lock, queue.SimpleQueue = self._saved
+        return False
 
 
 class CoopQueue(object):
